@@ -548,10 +548,21 @@ impl Ctx {
                     continue;
                 }
             };
-            case_begin();
-            let r = judged(|| f(&case));
-            case_end();
-            self.replay_results.push((path, r.err()));
+            // the replay of a listed known finding that depends on the schedule is repeated until it shows (at most 6 times), so
+            // that the KNOWN-FINDING line is printed reliably; any other replay runs once
+            let listed_known = self.known.iter().any(|k| k.status == "known" && k.signature == rf.signature);
+            let attempts = if listed_known { 6 } else { 1 };
+            let mut outcome = None;
+            for _ in 0..attempts {
+                case_begin();
+                let r = judged(|| f(&case));
+                case_end();
+                outcome = r.err();
+                if outcome.is_some() {
+                    break;
+                }
+            }
+            self.replay_results.push((path, outcome));
         }
         true
     }
